@@ -143,7 +143,57 @@ def run_import_path(m, cfg, frm, imp):
     return ('err', r.fields[0])
 
 
+def explore_components(item):
+    """component mode: both paths are `c1/c2/../ck/<file>.ts` with every ci one symbolic letter -- spends the symbolic budget on
+    names rather than on separators, so that deeper relations (divergence followed by equal names at equal depth, repeated names,
+    unequal depths) are covered"""
+    cfg, cwd, kf, ki, pre_f, pre_i = item
+    esm = cfg == 'esm'
+    fs = [z3.BitVec(f'f{i}', CH) for i in range(kf)]
+    isy = [z3.BitVec(f'i{i}', CH) for i in range(ki)]
+    ex = Explorer(time_budget=G.get('time_budget'))
+    for c in fs + isy:
+        ex.solver.add(z3.Or([c == z3.BitVecVal(ord(x), CH) for x in 'ats']))
+    frm = [ord(c) for c in pre_f]
+    for c in fs:
+        frm += [c, SLASH]
+    frm += [ord(c) for c in 'X.ts']
+    imp = [ord(c) for c in pre_i]
+    for c in isy:
+        imp += [c, SLASH]
+    imp += [ord(c) for c in 'D.ts']
+    cwdc = [ord(c) for c in cwd]
+    out = {'violations': [], 'samples': [], 'obligations': 0, 'discharged': 0, 'models': set(), 'inconclusive': []}
+
+    def harness(ctx):
+        m = Machine(G['fns'][cfg], MODELS, ctx, G['enums'])
+        m.env['cwd'] = cwdc
+        res = run_import_path(m, cfg, frm, imp)
+        out['models'].update(m.calls)
+        return res, check_spec(m, cwdc, frm, imp, res, esm)
+    try:
+        for pc, (res, why) in ex.run(harness):
+            out['obligations'] += 1
+            if why is None:
+                out['discharged'] += 1
+                if not out['samples'] and res[0] == 'ok' and pc and ex.check(pc) == z3.sat:
+                    mdl = ex.model()
+                    out['samples'].append({'cfg': cfg, 'from': show(frm, mdl), 'import': show(imp, mdl), 'specifier': show(res[1], mdl)})
+                continue
+            if ex.check(pc) == z3.sat:
+                mdl = ex.model()
+                out['violations'].append({'cfg': cfg, 'cwd': cwd, 'from': show(frm, mdl), 'import': show(imp, mdl),
+                                          'engine_result': res[0] + (':' + show(res[1], mdl) if res[0] == 'ok' else ''), 'why': why})
+    except Unsupported as e:
+        out['inconclusive'].append(f'{item}: {e}')
+    out.update(paths=ex.paths, nontrivial=ex.nontrivial, queries=ex.queries, solver_s=ex.solver_s)
+    out['models'] = sorted(out['models'])
+    return out
+
+
 def explore(item):
+    if item[0] == 'components':
+        return explore_components(item[1:])
     cfg, cwd, base_f, nf, base_i, ni = item[:6]
     suffix = item[6] if len(item) > 6 else '.ts'
     esm = cfg == 'esm'
@@ -278,7 +328,18 @@ def main():
                         items.append((cfg, cwd, bf, nf, bi, ni))
                         if (bf, bi) in (('', ''), ('o/', 'o/'), ('', '../')) and nf <= 2:
                             items.append((cfg, cwd, bf, nf, bi, min(ni, 4 if quick else 5), ''))      # imported file without the .ts suffix
-    rep.bounds = {'alphabet_of_symbolic_bytes': ALPHA, 'from': '<base><nf symbolic bytes>.ts', 'import': '<base><ni symbolic bytes>.ts, and for some cells <base><ni symbolic bytes> (file name without forced extension)',
+    comp_items = []
+    for kf in range(0, 4 if quick else 5):
+        for ki in range(0, 4 if quick else 5):
+            if kf + ki > (5 if quick else 7):
+                continue
+            for pre_f, pre_i in (('', ''), ('o/', 'o/'), ('', '../')) if quick else (('', ''), ('o/', 'o/'), ('', '../'), ('a/../', ''), ('/tmp/', '')):
+                comp_items.append(('components', 'plain', cwds[0], kf, ki, pre_f, pre_i))
+    comp_items.append(('components', 'esm', cwds[0], 2, 2, '', ''))
+    items += comp_items
+    rep.bounds = {'component_mode': f'{len(comp_items)} cells: from = <pre>c1/../ck/X.ts, import = <pre>d1/../dj/D.ts, every ci, di one symbolic letter over {{a,t,s}}, '
+                                    f'k, j up to {3 if quick else 4}',
+                  'alphabet_of_symbolic_bytes': ALPHA, 'from': '<base><nf symbolic bytes>.ts', 'import': '<base><ni symbolic bytes>.ts, and for some cells <base><ni symbolic bytes> (file name without forced extension)',
                   'nf_plus_ni': total, 'bases': bases, 'cwd': cwds, 'cells': len(items)}
     rep.outside += ['Windows separators (cfg!(target_os) is constant-folded on this target)', 'symlinks', 'non-UTF-8 paths',
                     'importing files whose name does not end in .ts', 'imported paths that do not name a file (ending in `.`, `..`)', 'longer symbolic parts / other alphabets',
